@@ -381,7 +381,10 @@ CHECKS["C11"] = dict(
           "with hostile argument shapes through the real handleRequest (must answer within 3 s). layer 2 part sockets: a real proxy in "
           "front of two simulated nodes; 1..5 steps in which node 0 answers the next CLUSTER NODES / READONLY / SCAN / keyed command with "
           "generated bytes (optionally closing) or a client sends generated bytes; after every step a fresh connection must get +PONG and "
-          "a SET on the untouched node must succeed within 10 s. A crash of the test process is attributed to the case being executed and "
+          "a SET on the untouched node must succeed within 10 s. part clusternodes-socket: the genuine CLUSTER NODES text of the simulated "
+          "cluster with 1..3 edited tokens (slot tokens at and beyond the boundary 16383/16384/16385, reversed/huge/negative ranges, "
+          "unknown master ids, broken addresses) is served by every node for three refresh periods through the real refresh loop; the "
+          "proxy must stay alive and serve again within 10 s after the genuine text is back. A crash of the test process is attributed to the case being executed and "
           "is a violation. Non-trivial: the input is not valid RESP / not a well-formed reply and differs from every corpus constant. "
           "Distinct by input bytes resp. canonical JSON."),
     assumptions=["heap amplification by wide AND deep arrays (*1048576 nested d times costs d x 64 MiB) is not explored: the statement's memory bound is decided for stack depth and for single over-limit lengths only",
@@ -392,6 +395,7 @@ CHECKS["C11"] = dict(
         dict(name="backendreply", test="TestBackendReplies", kind="rapid", checks={"quick": 300, "thorough": 10000}, shards=8, timeout={"quick": 900, "thorough": 3400}, crash_is_violation=True),
         dict(name="scanreply", test="TestScanReplies", kind="rapid", checks={"quick": 5000, "thorough": 200000}, shards=2, timeout={"quick": 900, "thorough": 3400}, crash_is_violation=True),
         dict(name="requestvalue", test="TestRequestValues", kind="rapid", checks={"quick": 3000, "thorough": 100000}, shards=4, timeout={"quick": 900, "thorough": 3400}, crash_is_violation=True),
+        dict(name="clusternodes-socket", test="TestHostileClusterNodes", kind="rapid", checks={"quick": 20, "thorough": 800}, shards=16, timeout={"quick": 900, "thorough": 3400}, gomaxprocs=4, crash_is_violation=True),
         dict(name="sockets", test="TestHostileSockets", kind="rapid", checks={"quick": 40, "thorough": 1500}, shards=16, timeout={"quick": 900, "thorough": 3400}, gomaxprocs=4, crash_is_violation=True),
     ],
 )
